@@ -393,4 +393,237 @@ theorem slp_cost_eq (k : Rat) (mask : List Bool) (c : List Rat) (samples : List 
   simp only [e]
   ring
 
+/-! ### mask facts -/
+
+theorem maskRank_lt (mask : List Bool) (j : Nat) (h : mask.getD j false = true) : maskRank mask j < maskCount mask := by
+  induction mask generalizing j with
+  | nil => simp at h
+  | cons b bs ih =>
+    cases j with
+    | zero =>
+      have hb : b = true := by simpa using h
+      subst hb; simp [maskRank, maskCount]
+    | succ j =>
+      have := ih j (by simpa using h)
+      simp only [maskRank, maskCount]; omega
+
+theorem maskRank_inj (mask : List Bool) (j j' : Nat) (h : mask.getD j false = true) (h' : mask.getD j' false = true)
+    (e : maskRank mask j = maskRank mask j') : j = j' := by
+  induction mask generalizing j j' with
+  | nil => simp at h
+  | cons b bs ih =>
+    cases j with
+    | zero =>
+      cases j' with
+      | zero => rfl
+      | succ j' =>
+        have hb : b = true := by simpa using h
+        subst hb; simp only [maskRank, ↓reduceIte] at e; omega
+    | succ j =>
+      cases j' with
+      | zero =>
+        have hb : b = true := by simpa using h'
+        subst hb; simp only [maskRank, ↓reduceIte] at e; omega
+      | succ j' =>
+        simp only [maskRank] at e
+        rw [ih j j' (by simpa using h) (by simpa using h') (by omega)]
+
+/-- the copies of scenario `i+1` occupy the block `[n + i·n_f, n + (i+1)·n_f)` -/
+theorem slpEmbed_block (mask : List Bool) (n i j : Nat) (h : mask.getD j false = true) :
+    n + i * maskCount mask ≤ slpEmbed mask n (i + 1) j ∧ slpEmbed mask n (i + 1) j < n + (i + 1) * maskCount mask := by
+  rw [slpEmbed_succ_sel mask n i j h, Nat.succ_mul]
+  have := maskRank_lt mask j h
+  omega
+
+theorem slpEmbed_inj (mask : List Bool) (n i j j' : Nat) (h : mask.getD j false = true) (h' : mask.getD j' false = true)
+    (e : slpEmbed mask n (i + 1) j = slpEmbed mask n (i + 1) j') : j = j' := by
+  rw [slpEmbed_succ_sel mask n i j h, slpEmbed_succ_sel mask n i j' h'] at e
+  exact maskRank_inj mask j j' h h' (by omega)
+
+theorem length_sampleCosts (k : Rat) (mask : List Bool) (samples : List (List Rat))
+    (h : ∀ cs ∈ samples, cs.length = mask.length) :
+    (sampleCosts k mask samples).length = samples.length * maskCount mask := by
+  induction samples with
+  | nil => simp [sampleCosts]
+  | cons cs rest ih =>
+    simp only [sampleCosts, List.length_append, List.length_map, List.length_cons,
+      length_maskSel mask cs (h cs (by simp)), ih (fun c hc => h c (by simp [hc])), Nat.succ_mul]
+    omega
+
+/-! ### first rows of a mapping (`~index.duplicated(keep='first')`) -/
+
+/-- relabelling of a mapping row -/
+def relabel (g : Nat → Nat) (m : MapRow) : MapRow := { m with var := g m.var }
+
+@[simp] theorem relabel_var (g : Nat → Nat) (m : MapRow) : (relabel g m).var = g m.var := rfl
+@[simp] theorem relabel_isBool (g : Nat → Nat) (m : MapRow) : (relabel g m).isBool = m.isBool := rfl
+
+/-- `firstRows` depends on the list of labels already seen only through membership of the labels of the rows -/
+theorem firstRows_congr (M : List MapRow) (seen seen' : List Nat)
+    (h : ∀ m ∈ M, seen.contains m.var = seen'.contains m.var) : firstRows M seen = firstRows M seen' := by
+  induction M generalizing seen seen' with
+  | nil => rfl
+  | cons m M ih =>
+    simp only [firstRows]
+    rw [← h m (by simp)]
+    split
+    · exact ih seen seen' (fun x hx => h x (by simp [hx]))
+    · congr 1
+      apply ih
+      intro x hx
+      simp only [List.contains_cons]
+      rw [h x (by simp [hx])]
+
+theorem firstRows_append (A B : List MapRow) (seen : List Nat) :
+    firstRows (A ++ B) seen = firstRows A seen ++ firstRows B (A.map (·.var) ++ seen) := by
+  induction A generalizing seen with
+  | nil => rfl
+  | cons m A ih =>
+    simp only [List.cons_append, firstRows, List.map_cons]
+    split
+    · rename_i hc
+      rw [ih seen]
+      congr 1
+      apply firstRows_congr
+      intro x _
+      simp only [List.contains_cons, List.contains_append]
+      have hm : m.var ∈ seen := by simpa using hc
+      by_cases hx : x.var = m.var
+      · rw [hx]; simp [hm]
+      · have : (x.var == m.var) = false := by simpa using hx
+        simp [this]
+    · rw [ih (m.var :: seen)]
+      simp only [List.cons_append]
+      congr 2
+      apply firstRows_congr
+      intro x _
+      simp only [List.contains_cons, List.contains_append]
+      cases (x.var == m.var) <;> simp
+
+/-- labels not met so far can be forgotten -/
+theorem firstRows_fresh (M : List MapRow) (seen : List Nat) (h : ∀ m ∈ M, m.var ∉ seen) :
+    firstRows M seen = firstRows M [] := by
+  apply firstRows_congr
+  intro m hm
+  have := h m hm
+  simp [this]
+
+theorem firstRows_filter (p : Nat → Bool) (M : List MapRow) (seen : List Nat) :
+    firstRows (M.filter fun m => p m.var) seen = (firstRows M seen).filter fun m => p m.var := by
+  induction M generalizing seen with
+  | nil => rfl
+  | cons m M ih =>
+    by_cases hp : p m.var = true
+    · rw [List.filter_cons_of_pos (by simpa using hp)]
+      simp only [firstRows]
+      split
+      · exact ih seen
+      · rw [List.filter_cons_of_pos (by simpa using hp), ih]
+    · have hp' : p m.var = false := by simpa using hp
+      rw [List.filter_cons_of_neg (by simp [hp'])]
+      simp only [firstRows]
+      split
+      · exact ih seen
+      · rw [List.filter_cons_of_neg (by simp [hp']), ← ih]
+        apply firstRows_congr
+        intro x hx
+        have hx' := (List.mem_filter.mp hx).2
+        have hne : x.var ≠ m.var := by
+          intro e
+          rw [e, hp'] at hx'; simp at hx'
+        simp [hne]
+
+theorem firstRows_relabel (g : Nat → Nat) (M : List MapRow) (seen : List Nat)
+    (hinj : ∀ a ∈ M.map (·.var) ++ seen, ∀ b ∈ M.map (·.var) ++ seen, g a = g b → a = b) :
+    firstRows (M.map (relabel g)) (seen.map g) = (firstRows M seen).map (relabel g) := by
+  induction M generalizing seen with
+  | nil => rfl
+  | cons m M ih =>
+    simp only [List.map_cons, firstRows, relabel_var]
+    have hc : (seen.map g).contains (g m.var) = seen.contains m.var := by
+      by_cases hs : m.var ∈ seen
+      · have : g m.var ∈ seen.map g := List.mem_map.mpr ⟨_, hs, rfl⟩
+        simp [hs, this]
+      · have : g m.var ∉ seen.map g := by
+          intro hh
+          obtain ⟨b, hb, e⟩ := List.mem_map.mp hh
+          have := hinj b (by simp [hb]) m.var (by simp) e
+          exact hs (this ▸ hb)
+        simp [hs, this]
+    simp only [hc]
+    have hsub1 : ∀ a, a ∈ M.map (·.var) ++ seen → a ∈ (m :: M).map (·.var) ++ seen := by
+      intro a ha
+      rw [List.map_cons, List.cons_append]
+      exact List.mem_cons_of_mem _ ha
+    have hsub2 : ∀ a, a ∈ M.map (·.var) ++ (m.var :: seen) → a ∈ (m :: M).map (·.var) ++ seen := by
+      intro a ha
+      rw [List.map_cons, List.cons_append]
+      rcases List.mem_append.mp ha with h | h
+      · exact List.mem_cons_of_mem _ (List.mem_append.mpr (Or.inl h))
+      · rcases List.mem_cons.mp h with h | h
+        · rw [h]; exact List.mem_cons_self
+        · exact List.mem_cons_of_mem _ (List.mem_append.mpr (Or.inr h))
+    split
+    · exact ih seen (fun a ha b hb => hinj a (hsub1 a ha) b (hsub1 b hb))
+    · rw [List.map_cons]
+      congr 1
+      have := ih (m.var :: seen) (fun a ha b hb => hinj a (hsub2 a ha) b (hsub2 b hb))
+      simpa using this
+
+/-! ### mapping of the SLP -/
+
+/-- the rows appended for the samples `0 … S-1`: copies of the rows of future variables -/
+def copyBlocks (mask : List Bool) (n : Nat) (M : List MapRow) (S : Nat) : List MapRow :=
+  (List.range S).flatMap fun i => (M.filter fun m => mask.getD m.var false).map (relabel (slpEmbed mask n (i + 1)))
+
+theorem copyBlocks_succ (mask : List Bool) (n : Nat) (M : List MapRow) (S : Nat) :
+    copyBlocks mask n M (S + 1) =
+      copyBlocks mask n M S ++ (M.filter fun m => mask.getD m.var false).map (relabel (slpEmbed mask n (S + 1))) := by
+  simp [copyBlocks, List.range_succ, List.flatMap_append]
+
+/-- labels of the copies of samples `< S` lie in `[n, n + S·n_f)` -/
+theorem copyBlocks_var (mask : List Bool) (n : Nat) (M : List MapRow) (S : Nat) (m : MapRow)
+    (hm : m ∈ copyBlocks mask n M S) : n ≤ m.var ∧ m.var < n + S * maskCount mask := by
+  unfold copyBlocks at hm
+  obtain ⟨i, hi, hm⟩ := List.mem_flatMap.mp hm
+  obtain ⟨m0, hm0, rfl⟩ := List.mem_map.mp hm
+  have hf : mask.getD m0.var false = true := by simpa using (List.mem_filter.mp hm0).2
+  have hi' : i < S := List.mem_range.mp hi
+  have hb := slpEmbed_block mask n i m0.var hf
+  have : (i + 1) * maskCount mask ≤ S * maskCount mask := Nat.mul_le_mul_right _ (by omega)
+  rw [relabel_var]
+  omega
+
+/-- first rows of the appended copies = copies of the first rows of the future variables -/
+theorem firstRows_copyBlocks (mask : List Bool) (n : Nat) (M : List MapRow) (hM : ∀ m ∈ M, m.var < n) (S : Nat) :
+    firstRows (copyBlocks mask n M S) (M.map (·.var) ++ []) = copyBlocks mask n (firstRows M []) S := by
+  induction S with
+  | zero => simp [copyBlocks, firstRows]
+  | succ S ih =>
+    rw [copyBlocks_succ, copyBlocks_succ, firstRows_append, ih]
+    congr 1
+    rw [firstRows_fresh]
+    · have := firstRows_relabel (slpEmbed mask n (S + 1)) (M.filter fun m => mask.getD m.var false) [] (by
+        intro a ha b hb e
+        rw [List.append_nil] at ha hb
+        obtain ⟨ma, hma, rfl⟩ := List.mem_map.mp ha
+        obtain ⟨mb, hmb, rfl⟩ := List.mem_map.mp hb
+        exact slpEmbed_inj mask n S _ _ (by simpa using (List.mem_filter.mp hma).2)
+          (by simpa using (List.mem_filter.mp hmb).2) e)
+      rw [List.map_nil] at this
+      rw [this, firstRows_filter (fun v => mask.getD v false) M []]
+    · intro m hm hmem
+      obtain ⟨m0, hm0, rfl⟩ := List.mem_map.mp hm
+      have hf : mask.getD m0.var false = true := by simpa using (List.mem_filter.mp hm0).2
+      have hb := slpEmbed_block mask n S m0.var hf
+      rw [relabel_var] at hmem
+      rcases List.mem_append.mp hmem with h1 | h1
+      · obtain ⟨m1, hm1, e⟩ := List.mem_map.mp h1
+        have := (copyBlocks_var mask n M S m1 hm1).2
+        omega
+      · rw [List.append_nil] at h1
+        obtain ⟨m1, hm1, e⟩ := List.mem_map.mp h1
+        have := hM m1 hm1
+        omega
+
 end EAO.Slp
